@@ -225,8 +225,26 @@ impl Linker {
 
         // Note, we propagate errors from `link_with_input_data` after we've checked if any files
         // changed. We want inputs-changed errors to take precedence over all other errors.
-        let result = self.load_inputs_and_link::<P, A>(&mut file_loader, args);
+        let mut output = None;
+        let result = self.load_inputs_and_link::<P, A>(&mut file_loader, args, &mut output);
 
+        let result = Self::finish_link::<P>(args, &file_loader, result);
+
+        // If the link failed, don't leave a partially written output file behind.
+        if result.is_err()
+            && let Some(output) = output.as_ref()
+        {
+            output.remove_after_failed_link();
+        }
+
+        result
+    }
+
+    fn finish_link<'data, P: Platform>(
+        args: &'data P::Args,
+        file_loader: &FileLoader<'data>,
+        result: error::Result<LinkerOutput<'data>>,
+    ) -> error::Result<LinkerOutput<'data>> {
         file_loader.verify_inputs_unchanged()?;
 
         #[cfg(feature = "verif_hooks")]
@@ -258,6 +276,7 @@ impl Linker {
         &'data self,
         file_loader: &mut FileLoader<'data>,
         args: &'data P::Args,
+        output_slot: &mut Option<file_writer::Output>,
     ) -> error::Result<LinkerOutput<'data>> {
         let mut plugin = P::maybe_init_linker_plugin(args, &self.linker_plugin_arena, &self.herd)?;
 
@@ -272,7 +291,7 @@ impl Linker {
 
         let output_kind = OutputKind::new(args, file_loader);
 
-        let mut output = file_writer::Output::new(args, output_kind);
+        let output = output_slot.insert(file_writer::Output::new(args, output_kind));
 
         let mut output_sections =
             OutputSections::with_base_address(P::start_memory_address(output_kind));
@@ -348,13 +367,13 @@ impl Linker {
             per_symbol_flags,
             resolved,
             output_sections,
-            &mut output,
+            output,
         )?;
 
         #[cfg(feature = "verif_hooks")]
         crate::verif_hooks::point("layout")?;
 
-        P::write_output_file::<A>(&output, &layout)?;
+        P::write_output_file::<A>(output, &layout)?;
 
         #[cfg(feature = "verif_hooks")]
         crate::verif_hooks::point("written")?;
